@@ -35,6 +35,12 @@ CHECKS = {
         "note": "Type shapes bounded (<= 4 fields, <= 3 variants, nesting <= 2); registered host aggregate types and the Rust boundary are C05/C15's business.",
         "technique": "TLA+ definitional interpreter (RotoSem) + TLC trace validation of recorded native executions of copy/mutate/observe programs",
     },
+
+    "C07": {
+        "text": "Typing.tla is a bidirectional typing judgement WellTyped for a single-module fragment (all integer and float widths, bool, String, (), Option, List, named records and enums, anonymous record literals, filtermap verdicts; unification with integer-literal / must-be-signed / float / unconstrained / never types; match exhaustiveness and reachability; placement of ? / return / accept / reject; local-only assignment; one declaration per scope; type and constant cycles). MCTyping.tla holds 16 parameterised seed templates and 27 single-edit families Break(family, site) covering every rule of the statement; TLC checks SeedWellTyped and, for every applicable site of every family on every seed, MutantIllTyped, and emits each certified mutant (6k quick / 20k thorough); every mutant is printed to source and compiled by the real compiler and must be rejected with a type error report. Seeded random well-typed-by-construction programs and 19 blind random edits (3.4k / 29k compile events) are judged one by one by TLC (TraceTyping.tla): a program the judgement rejects must not compile.",
+        "note": "Completeness is not claimed (a rejected well-typed program is a logged note). The judgement is deliberately more permissive than roto where inference order matters, so such conflicts are not certified. Not covered: f-strings, methods, script-declared generics, imports, runtime items. Error text is not compared, only the error kind; a crash after acceptance is reported as a C06-type finding.",
+        "technique": "TLA+ typing judgement (Typing) + TLC-certified single-edit mutants of TLC-checked seeds replayed into the compiler + TLC trace validation of random programs and blind edits",
+    },
     "C08": {
         "text": "RotoSem.tla threads the ordered log of host calls through a strictly left-to-right big-step evaluation (operands, arguments with the receiver first, record fields, enum constructor arguments, list elements, f-string parts; && / || short-circuit; one arm of if/match with guards in source order; loop condition once more than the body; nothing after return or ? on None; x op= e reads x first). Seeded random programs whose sub-expressions at every position call logging host functions are run natively; TLC accepts a recorded execution iff the host-call sequence with argument values and the result equal RotoSem.Eval.",
         "note": "Only documented evaluation orders are asserted; program size/nesting bounded by the generator.",
